@@ -72,6 +72,26 @@ def closed_form(df, covs):
     return out
 
 
+def closed_form_w(df, covs, wcol):
+    """frequency-weighted version: weighted sample cell means standardized to the weighted target"""
+    sid = gen.strata_ids(df, covs)
+    S = sorted(set(sid.tolist()))
+    smp = df['S'].values == 1
+    w = df[wcol].values
+    out = {}
+    for g in (True, False):
+        for a in (0, 1):
+            num, den = Fraction(0), Fraction(0)
+            for s in S:
+                cell = (sid == s) & smp & (df['A'].values == a)
+                cm = Fraction(int((w * np.nan_to_num(df['Y'].values))[cell].sum()), int(w[cell].sum()))
+                nt = int(w[(sid == s) & (True if g else ~smp)].sum()) if g else int(w[(sid == s) & ~smp].sum())
+                num += nt * cm
+                den += nt
+            out[(g, a)] = num / den
+    return out
+
+
 def enc(df, covs, fl=True):
     sid = gen.strata_ids(df, covs)
     a = df['A'].fillna(0).astype(int).tolist()
@@ -80,10 +100,11 @@ def enc(df, covs, fl=True):
                 obs=enc_list(df['S'].astype(int).tolist(), str))
 
 
-def estimators(df, covs, g, stab, treat, which, grepr=bool):
-    """grepr: how the boolean option `generalize` is handed over (bool / numpy.bool_ / int: all legitimate truth values)"""
+def estimators(df, covs, g, stab, treat, which, grepr=bool, extra=()):
+    """grepr: how the boolean option `generalize` is handed over (bool / numpy.bool_ / int: all legitimate truth values);
+    extra: further columns of the caller's frame that no model uses (they may hold missing values)"""
     from zepid.causal.generalize import IPSW, GTransportFormula, AIPSW
-    cols = covs + ['A', 'Y', 'S']
+    cols = covs + ['A', 'Y', 'S'] + list(extra)
     sc = gen.sat_cov(covs)
     g = grepr(g)
     if getattr(df, '_verif_shared', False):
@@ -240,8 +261,48 @@ def run(chk, drv, rng, tier):
                         chk.d(close(ea.risk_difference, want_rd, **TOL) and close(ea.risk_ratio, want_rr, **TOL),
                               '%s with A and Y recorded outside the sample still standardizes the sample cell means' % which,
                               dict(case, impl_AY=[float(ea.risk_difference), float(ea.risk_ratio)]))
+                        # a column of the caller's frame that no model uses, with missing values on sampled and non-sampled
+                        # rows (missingness related to the outcome): the analysed rows are those with the USED variables
+                        # observed, so nothing changes
+                        if treat != 'column':
+                            dfz = dfn.copy()
+                            zr = np.random.default_rng(seed + 7)
+                            dfz['Zx'] = np.where((zr.uniform(size=len(dfz)) < 0.25) | ((dfz['Y'] == 1) & (zr.uniform(size=len(dfz)) < 0.3)),
+                                                 np.nan, zr.normal(size=len(dfz)))
+                            try:
+                                ez = estimators(dfz, covs, g, stab, treat, which, extra=['Zx'])
+                                chk.d(close(ez.risk_difference, want_rd, **TOL) and close(ez.risk_ratio, want_rr, **TOL),
+                                      '%s: an unused column with missing values in the frame changes nothing' % which,
+                                      dict(case, impl_extra_column=[float(ez.risk_difference), float(ez.risk_ratio)],
+                                           extra_column_missing=int(dfz['Zx'].isnull().sum())))
+                            except Exception as ex:      # noqa: BLE001
+                                chk.d(False, '%s runs on a frame with an unused column holding missing values' % which,
+                                      dict(case, impl_error=repr(ex)))
                         if treat != 'column':
                             model_k(chk, drv, e, dfn, covs, g, stab, which, case)
+        # GTransportFormula with frequency weights (its documented `weights=` option), weights varying inside strata and
+        # between sample and target: weighted sample cell means standardized to the weighted target
+        from zepid.causal.generalize import GTransportFormula
+        dfw = dfn.copy()
+        dfw['fw'] = np.random.default_rng(seed + 11).integers(1, 5, size=len(dfw)).astype(float)
+        cfw = closed_form_w(dfw, covs, 'fw')
+        for g in (True, False):
+            case = {'estimator': 'GTransportFormula', 'generalize': g, 'weights': 'integer frequency weights 1..4',
+                    'data': rec, 'data_seed': seed}
+            chk.case(case, (dsid, 'GTransportFormula/weights', g) if nontriv else None)
+            chk.count('GTransportFormula/%s/weights' % ('generalize' if g else 'transport'))
+            try:
+                ew = GTransportFormula(dfw[covs + ['A', 'Y', 'S', 'fw']], exposure='A', outcome='Y', selection='S',
+                                       generalize=g, weights='fw')
+                ew.outcome_model(gen.sat_out(covs), print_results=False)
+                ew.fit()
+                want = [float(cfw[(g, 1)] - cfw[(g, 0)]), float(cfw[(g, 1)] / cfw[(g, 0)])]
+                chk.d(close(ew.risk_difference, want[0], **TOL) and close(ew.risk_ratio, want[1], **TOL),
+                      'GTransportFormula with frequency weights = weighted sample cell means standardized to the weighted %s'
+                      % ('population' if g else 'non-sampled rows'),
+                      dict(case, impl=[float(ew.risk_difference), float(ew.risk_ratio)], want=want))
+            except Exception as ex:      # noqa: BLE001
+                chk.d(False, 'GTransportFormula runs with a frequency-weight column', dict(case, impl_error=repr(ex)))
 
 
 def replay(rec):
@@ -252,6 +313,33 @@ def replay(rec):
         seed = c['data']['data_seed']
         dfj, dfn, _, covs = make_frames(seed, c['data'].get('index', 'default'))
         cf = closed_form(dfn, covs)
+        if 'weights' in c:                       # GTransportFormula with frequency weights
+            from zepid.causal.generalize import GTransportFormula
+            dfw = dfn.copy()
+            dfw['fw'] = np.random.default_rng(seed + 11).integers(1, 5, size=len(dfw)).astype(float)
+            cfw = closed_form_w(dfw, covs, 'fw')
+            g = c['generalize']
+            with common.quiet():
+                ew = GTransportFormula(dfw[covs + ['A', 'Y', 'S', 'fw']], exposure='A', outcome='Y', selection='S',
+                                       generalize=g, weights='fw')
+                ew.outcome_model(gen.sat_out(covs), print_results=False)
+                ew.fit()
+            want = float(cfw[(g, 1)] - cfw[(g, 0)])
+            print(f['what'], '| impl RD', float(ew.risk_difference), '| weighted closed form', want)
+            n += not close(ew.risk_difference, want, **TOL)
+            continue
+        if 'impl_extra_column' in c or 'unused column' in f['what']:
+            dfz = dfn.copy()
+            zr = np.random.default_rng(seed + 7)
+            dfz['Zx'] = np.where((zr.uniform(size=len(dfz)) < 0.25) | ((dfz['Y'] == 1) & (zr.uniform(size=len(dfz)) < 0.3)),
+                                 np.nan, zr.normal(size=len(dfz)))
+            g = c['generalize']
+            with common.quiet():
+                ez = estimators(dfz, covs, g, c['stabilized'], c['treatment_model'], c['estimator'], extra=['Zx'])
+            want = float(cf[(g, 1)] - cf[(g, 0)])
+            print(f['what'], '| impl RD', float(ez.risk_difference), '| closed form', want)
+            n += not close(ez.risk_difference, want, **TOL)
+            continue
         with common.quiet():
             grepr = {'bool': bool, 'bool_': np.bool_, 'int': int}.get(c.get('generalize_passed_as', 'bool'), bool)
             e = estimators(dfn, covs, c['generalize'], c['stabilized'], c['treatment_model'], c['estimator'], grepr)
